@@ -16,7 +16,31 @@ var (
 
 // Re generates a regex AST over a small alphabet; depth-bounded.
 func Re(alphabet []rune, depth int) *rapid.Generator[*ref.Re] {
-	return rapid.Custom(func(t *rapid.T) *ref.Re { return drawRe(t, alphabet, depth) })
+	return rapid.Custom(func(t *rapid.T) *ref.Re { return drawReRoot(t, alphabet, depth) })
+}
+
+// drawReRoot draws a whole pattern: drawRe, and one time in twelve the case-insensitive spellings people write,
+// "(?i)…" in front of the whole pattern (only legal for the oracle as the root: the flag binds everything to its
+// right) or "(?i:…)" around it; half of those over a plain literal, the shape an implementation might special-case.
+func drawReRoot(t *rapid.T, alphabet []rune, depth int) *ref.Re {
+	if rapid.IntRange(0, 11).Draw(t, "foldRoot") != 0 {
+		return drawRe(t, alphabet, depth)
+	}
+	var sub *ref.Re
+	if rapid.Bool().Draw(t, "foldLit") {
+		n := rapid.IntRange(1, 3).Draw(t, "foldLitN")
+		rs := make([]rune, n)
+		for i := range rs {
+			rs[i] = rapid.SampledFrom(alphabet).Draw(t, "foldLitR")
+		}
+		sub = &ref.Re{Op: "lit", Lit: string(rs)}
+	} else {
+		sub = drawRe(t, alphabet, depth)
+	}
+	if rapid.Bool().Draw(t, "foldAll") {
+		return &ref.Re{Op: "foldall", Subs: []*ref.Re{sub}}
+	}
+	return &ref.Re{Op: "fold", Subs: []*ref.Re{sub}}
 }
 
 func drawRe(t *rapid.T, alphabet []rune, depth int) *ref.Re {
@@ -128,7 +152,7 @@ func UniMatcher() *rapid.Generator[ref.Matcher] {
 		if m.Op == "=" || m.Op == "!=" {
 			m.Value = rapid.SampledFrom(append([]string{""}, UniValues...)).Draw(t, "value")
 		} else {
-			m.Re = drawRe(t, uniAlphabet, rapid.IntRange(0, 2).Draw(t, "depth"))
+			m.Re = drawReRoot(t, uniAlphabet, rapid.IntRange(0, 2).Draw(t, "depth"))
 		}
 		return m
 	})
